@@ -353,21 +353,15 @@ def short(v):
 def classify(obs, exp) -> str:
     """what went wrong, for signatures: which aspect of the observation has no admissible counterpart"""
     ev, subs = obs
-    seq = [(k, v) for (_, k, v) in ev]
     if any(m[0] == ev for m in exp):
         return "subscription-instant"
-    if any([(k, v) for (_, k, v) in m[0]] == seq for m in exp):
-        return "timing"
     n = sum(1 for e in ev if e[1] == "N")
     ns = [sum(1 for e in m[0] if e[1] == "N") for m in exp]
     if n < min(ns):
         return "lost-element"
     if n > max(ns):
         return "extra-element"
-    term = ev[-1][1] if ev and ev[-1][1] in "EC" else None
-    if term not in {(m[0][-1][1] if m[0] and m[0][-1][1] in "EC" else None) for m in exp}:
-        return "terminal"
-    return "content"
+    return "wrong-notification"  # right number of elements; an instant, a value or the terminal differs
 
 
 def judge(clock: Clock, sub, sources, build, make_model, watch=(), horizon=HORIZON, norm=None):
